@@ -5,5 +5,6 @@ import AxVerif.Generated.Wire
 import AxVerif.Driver.Wire
 import AxVerif.Thm.C20
 import AxVerif.Model.Value
+import AxVerif.Generated.Value
 import AxVerif.Driver.Value
 import AxVerif.Thm.C19
